@@ -88,7 +88,16 @@ func main() {
 			fmt.Fprintln(os.Stderr, err)
 			os.Exit(2)
 		}
-		os.Stdout.Write(mustJSON(rr))
+		// the result goes to a file when asked: a library under test that prints diagnostics
+		// to stdout must not be able to corrupt it
+		if *out != "" {
+			if err := os.WriteFile(*out, mustJSON(rr), 0o644); err != nil {
+				fmt.Fprintln(os.Stderr, err)
+				os.Exit(2)
+			}
+		} else {
+			os.Stdout.Write(mustJSON(rr))
+		}
 	case "replay":
 		os.Exit(replay(*plan))
 	default:
